@@ -158,13 +158,21 @@ func (h *wireHooks) Call(in *Interp, c *CallCtx, k func(*State, []Val)) bool {
 			}
 		case "io.ReadFull":
 			if len(c.Args) == 2 {
-				c.St.emit(&Sym{Kind: "op", Name: "raw", Arg: lenOfVal(c.Args[1]), Pos: c.Site.Pos(), Extra: "r"})
+				ln := lenOfVal(c.Args[1])
+				if n, ok := staticSliceLen(c.Fr, c.ArgEs[1]); ok {
+					ln = intVal(n)
+				}
+				c.St.emit(&Sym{Kind: "op", Name: "raw", Arg: ln, Pos: c.Site.Pos(), Extra: "r"})
 				k(c.St, []Val{unknown, {K: KNil}})
 				return true
 			}
 		}
 		if c.Iface && fn.Name() == "Write" && len(c.Args) == 1 {
-			c.St.emit(&Sym{Kind: "op", Name: "raw", Arg: lenOfVal(c.Args[0]), Pos: c.Site.Pos(), Extra: "w"})
+			ln := lenOfVal(c.Args[0])
+			if n, ok := staticSliceLen(c.Fr, c.ArgEs[0]); ok {
+				ln = intVal(n)
+			}
+			c.St.emit(&Sym{Kind: "op", Name: "raw", Arg: ln, Pos: c.Site.Pos(), Extra: "w"})
 			k(c.St, []Val{unknown, {K: KNil}})
 			return true
 		}
@@ -592,4 +600,23 @@ func copyTerms(m map[string]int64) map[string]int64 {
 		o[k] = v
 	}
 	return o
+}
+
+// staticSliceLen: the length of x[:] when x is an array or a pointer to one.
+func staticSliceLen(fr *frame, e ast.Expr) (int64, bool) {
+	se, ok := ast.Unparen(e).(*ast.SliceExpr)
+	if !ok || se.Low != nil || se.High != nil {
+		return 0, false
+	}
+	t := typeOf(fr, se.X)
+	if t == nil {
+		return 0, false
+	}
+	if p, ok := t.Underlying().(*types.Pointer); ok {
+		t = p.Elem()
+	}
+	if a, ok := t.Underlying().(*types.Array); ok {
+		return a.Len(), true
+	}
+	return 0, false
 }
